@@ -124,7 +124,7 @@ def gen_graph(rnd, n):
     return {'nodes': list(g.nodes()), 'edges': [list(e) for e in g.edges()], 'kind': kind}
 
 
-def gen_case(rnd, combo=None, dynamics=None, regime=None):
+def gen_case(rnd, combo=None, dynamics=None, regime=None, more=None):
     combo = combo or rnd.choice(['alone', 'alone', 'inherit', 'inherit', 'inherit_rev', 'sequence', 'sequence'])
     dynamics = dynamics or rnd.choice(['stochastic', 'stochastic', 'synchronous'])
     regime = regime or rnd.choice(['growth', 'decay', 'mixed', 'mixed', 'mixed'])
@@ -147,10 +147,27 @@ def gen_case(rnd, combo=None, dynamics=None, regime=None):
         maxtime = rnd.choice([6.0, 10.0]) if not sync else float(n + 3)
     else:
         maxtime = rnd.choice([2.0, 3.0, 5.0]) if not sync else rnd.choice([3.0, 5.0, 7.0])
-    return {'combo': combo, 'dynamics': dynamics, 'regime': regime, 'graph': gen_graph(rnd, n), 'c': c,
+    case = {'combo': combo, 'dynamics': dynamics, 'regime': regime, 'graph': gen_graph(rnd, n), 'c': c,
             'pAdd': pa, 'pDelete': pd, 'maxtime': maxtime, 'seed': rnd.randrange(1 << 30),
             'pv': {'pSeed': rnd.choice([0.0, 0.25, 0.5, 0.5, 1.0]), 'pInfect': rnd.choice([0.0, 0.25, 0.5, 1.0]),
                    'pRemove': rnd.choice([0.0, 0.25, 0.5])}}
+    # histories: the SAME process and dynamics objects are run again (each run starts from a fresh copy of the
+    # prototype network); a run with deletions first, runs with additions after it
+    if more is None:
+        more = rnd.random() < 0.3 and n >= 1
+    if more:
+        if regime == 'growth':
+            case['regime'] = regime = rnd.choice(['decay', 'mixed'])
+            case['pAdd'] = 0.0 if regime == 'decay' else rnd.choice(hi)
+            case['pDelete'] = rnd.choice([1.0, 2.0] if not sync else [1.0])
+            case['maxtime'] = (rnd.choice([3.0, 6.0]) if not sync else rnd.choice([3.0, 5.0]))
+        case['more'] = []
+        for _ in range(rnd.choice([1, 1, 2])):
+            c2 = rnd.randrange(0, min(3, n) + 1)
+            case['more'].append({'c': c2, 'pAdd': rnd.choice(hi), 'pDelete': rnd.choice([0.0, 0.0, 0.5, 1.0]),
+                                 'maxtime': rnd.choice([2.0, 3.0]) if not sync else rnd.choice([3.0, 4.0]),
+                                 'seed': rnd.randrange(1 << 30)})
+    return case
 
 
 # ---------------------------------------------------------------- running the implementation
@@ -165,7 +182,7 @@ def run_case(case):
     g = networkx.Graph()
     g.add_nodes_from(case['graph']['nodes'])
     g.add_edges_from([tuple(e) for e in case['graph']['edges']])
-    params = {AddDelete.P_ADD: case['pAdd'], AddDelete.P_DELETE: case['pDelete'], AddDelete.DEGREE: case['c']}
+    params = {}
     pv = case['pv']
     disease = None
     via_disease = False
@@ -190,14 +207,10 @@ def run_case(case):
             top = ProcessSequence({cad.DISEASE: disease, 'adddelete': pop})
             procs = [disease, pop]
             via_disease = getattr(cad, 'addEdge') is not Process.addEdge     # does the recipe route edges?
-    top.setMaximumTime(case['maxtime'])
     dcls = ep.StochasticDynamics if case['dynamics'] == 'stochastic' else ep.SynchronousDynamics
     dyn = dcls(top, g)
-    orc = Oracle(seed=case['seed'])
-    rec = kscript.Recorder()
     index = {id(p): i for i, p in enumerate(procs)}
     compvar = disease.COMPARTMENT if disease is not None else None
-    entries, snaps, layout = [], [], {'procs': [], 'loci': []}
     state = {'in_add': None}
 
     def lociview():
@@ -224,111 +237,134 @@ def run_case(case):
         return orig_add_edge(n, m, **kw)
     pop.addEdge = add_edge
 
-    def wrap(k, locus, ef):
-        fn = getattr(ef, '__name__', str(ef))
+    def one_run(rp):
+        top.setMaximumTime(rp['maxtime'])
+        orc = Oracle(seed=rp['seed'])
+        rec = kscript.Recorder()
+        entries, snaps, layout = [], [], {'procs': [], 'loci': []}
 
-        def w(t, e):
+        def wrap(k, locus, ef):
+            fn = getattr(ef, '__name__', str(ef))
+
+            def w(t, e):
+                net = dyn.network()
+                en = {'k': k, 'fn': fn, 't': t, 'e': e, 'member': e in locus, 'd0': len(rec.draws), 'calls': [],
+                      'nodes_before': list(net.nodes()), 'edges_before': [tuple(x) for x in net.edges()]}
+                if fn == 'add':
+                    others = len(pop.locus(AddDelete.NODES))
+                    if others < rp['c']:
+                        raise OutOfScope('%d other nodes, degree %d' % (others, rp['c']))
+                    state['in_add'] = en
+                entries.append(en)
+                try:
+                    return ef(t, e)
+                finally:
+                    state['in_add'] = None
+                    en['d1'] = len(rec.draws)
+            w.__name__ = fn
+            return w
+
+        started = {}
+
+        def sim_started(params_):
+            started['rand'] = len(orc.values('random'))
+            k = 0
+            for p in top.allProcesses():
+                evs = []
+                for attr, kind in (('_perElementEvents', 'elem'), ('_perLocusEvents', 'fixed')):
+                    new = []
+                    for (l, pr, ef, name) in getattr(p, attr):
+                        evs.append({'k': k, 'kind': kind, 'li': lindex(l), 'p': pr, 'fn': getattr(ef, '__name__', str(ef))})
+                        new.append((l, pr, wrap(k, l, ef), name))
+                        k += 1
+                    setattr(p, attr, new)
+                layout['procs'].append(evs)
+            for nm, l in dyn.loci().items():
+                if isinstance(l, ep.CompartmentedEdgeLocus):
+                    layout['loci'].append([nm, 'edge', l._left, l._right])
+                elif isinstance(l, ep.CompartmentedNodeLocus):
+                    layout['loci'].append([nm, 'node', l._compartment])
+                else:
+                    layout['loci'].append([nm, 'plain'])
             net = dyn.network()
-            en = {'k': k, 'fn': fn, 't': t, 'e': e, 'member': e in locus, 'd0': len(rec.draws), 'calls': [],
-                  'nodes_before': list(net.nodes()), 'edges_before': [tuple(x) for x in net.edges()]}
-            if fn == 'add':
-                others = len(pop.locus(AddDelete.NODES))
-                if others < case['c']:
-                    raise OutOfScope('%d other nodes, degree %d' % (others, case['c']))
-                state['in_add'] = en
-            entries.append(en)
-            try:
-                return ef(t, e)
-            finally:
-                state['in_add'] = None
-                en['d1'] = len(rec.draws)
-        w.__name__ = fn
-        return w
+            started.update(comps=comps(), loci=lociview(), nodes=list(net.nodes()), edges=[tuple(e) for e in net.edges()])
+        dyn.simulationStarted = sim_started
 
-    started = {}
+        def tap(t, p, name, e):
+            net = dyn.network()
+            snaps.append({'t': t, 'pi': index.get(id(p), -1), 'e': e, 'nodes': list(net.nodes()), 'edges': [tuple(x) for x in net.edges()],
+                          'comps': comps(), 'loci': lociview(), 'entry': len(entries) - 1})
+            if len(snaps) > 120:
+                raise kscript.Budget('run exceeds the harness budget')
+        dyn.eventFired = tap
+        final = {}
 
-    def sim_started(params_):
-        started['rand'] = len(orc.values('random'))
-        k = 0
-        for p in top.allProcesses():
-            evs = []
-            for attr, kind in (('_perElementEvents', 'elem'), ('_perLocusEvents', 'fixed')):
-                new = []
-                for (l, pr, ef, name) in getattr(p, attr):
-                    evs.append({'k': k, 'kind': kind, 'li': lindex(l), 'p': pr, 'fn': getattr(ef, '__name__', str(ef))})
-                    new.append((l, pr, wrap(k, l, ef), name))
-                    k += 1
-                setattr(p, attr, new)
-            layout['procs'].append(evs)
-        for nm, l in dyn.loci().items():
-            if isinstance(l, ep.CompartmentedEdgeLocus):
-                layout['loci'].append([nm, 'edge', l._left, l._right])
-            elif isinstance(l, ep.CompartmentedNodeLocus):
-                layout['loci'].append([nm, 'node', l._compartment])
-            else:
-                layout['loci'].append([nm, 'plain'])
-        net = dyn.network()
-        started.update(comps=comps(), loci=lociview(), nodes=list(net.nodes()), edges=[tuple(e) for e in net.edges()])
-    dyn.simulationStarted = sim_started
+        def ended(res):
+            net = dyn.network()
+            final.update(nodes=list(net.nodes()), edges=[tuple(e) for e in net.edges()], comps=comps(), loci=lociview())
+        dyn.simulationEnded = ended
 
-    def tap(t, p, name, e):
-        net = dyn.network()
-        snaps.append({'t': t, 'pi': index.get(id(p), -1), 'e': e, 'nodes': list(net.nodes()), 'edges': [tuple(x) for x in net.edges()],
-                      'comps': comps(), 'loci': lociview(), 'entry': len(entries) - 1})
-        if len(snaps) > 120:
-            raise kscript.Budget('run exceeds the harness budget')
-    dyn.eventFired = tap
-    final = {}
+        # DrawSet.draw: record the rank, and stop a draw loop that does not end
+        install(orc)
+        kscript.install_draw_recorder(rec)
+        recording_draw = ep.DrawSet.draw
 
-    def ended(res):
-        net = dyn.network()
-        final.update(nodes=list(net.nodes()), edges=[tuple(e) for e in net.edges()], comps=comps(), loci=lociview())
-    dyn.simulationEnded = ended
+        def guarded_draw(self):
+            en = state['in_add']
+            if en is not None and len(rec.draws) - en['d0'] > 400:
+                raise AddLivelock('more than 400 draws inside one add')
+            return recording_draw(self)
+        ep.DrawSet.draw = guarded_draw
+        saved_math = sd.math
+        sd.math = kscript.LogShim(rec)
+        exc = None
+        rc = None
+        try:
+            rc = dyn.set(dict(params, **{AddDelete.P_ADD: rp['pAdd'], AddDelete.P_DELETE: rp['pDelete'], AddDelete.DEGREE: rp['c']})).run(fatal=True)
+        except Exception as e:
+            exc = type(e).__name__ + ': ' + str(e)
+        finally:
+            sd.math = saved_math
+            kscript.uninstall_draw_recorder()
+        md = (rc or {}).get(epyc.Experiment.METADATA, {}) if rc else {}
+        res = (rc or {}).get(epyc.Experiment.RESULTS, {}) if rc else {}
+        inside = set()
+        for en in entries:
+            if en['fn'] == 'add':
+                inside.update(range(en['d0'], en.get('d1', en['d0'])))
+        obs = {'exception': exc, 'entries': entries, 'snaps': snaps, 'layout': layout, 'started': started, 'final': final,
+               'via_disease': via_disease, 'classes': cls['source'],
+               'results': {k: v for k, v in res.items() if isinstance(v, (int, float))} if isinstance(res, dict) else {},
+               'time': md.get(Dynamics.TIME), 'events': md.get(Dynamics.EVENTS), 'steps': md.get(SynchronousDynamics.TIMESTEPS_WITH_EVENTS, 0),
+               'rands': [e[1] for e in orc.values('random')], 'lns': list(rec.logs),
+               'draws': [d[1] for i, d in enumerate(rec.draws) if i not in inside],
+               'adraws': [d[1] for i, d in enumerate(rec.draws) if i in inside],
+               'codes': {SIR.SUSCEPTIBLE: 1, SIR.INFECTED: 2, SIR.REMOVED: 3}, 'c': rp['c'], 'maxtime': rp['maxtime'], 'proto_nodes': list(g.nodes())}
+        if exc and (exc.startswith('Budget') or exc.startswith('OutOfScope')):
+            obs['skipped'] = exc.split(':')[0]
+        obs['stats'] = {'additions': sum(1 for en in entries if en['fn'] == 'add'), 'deletions': sum(1 for en in entries if en['fn'] == 'delete'),
+                        'disease_events': sum(1 for en in entries if en['fn'] not in ('add', 'delete')),
+                        'draws_inside_add': len(obs['adraws']), 'redraws_inside_add': max(0, len(obs['adraws']) - rp['c'] * sum(1 for en in entries if en['fn'] == 'add')),
+                        'runs_down_to_empty_network': int(bool(final) and not final.get('nodes') and bool(case['graph']['nodes'])),
+                        'dropped_out_of_scope': int(obs.get('skipped') == 'OutOfScope'), 'dropped_budget': int(obs.get('skipped') == 'Budget')}
+        return obs
 
-    # DrawSet.draw: record the rank, and stop a draw loop that does not end
-    install(orc)
-    kscript.install_draw_recorder(rec)
-    recording_draw = ep.DrawSet.draw
-
-    def guarded_draw(self):
-        en = state['in_add']
-        if en is not None and len(rec.draws) - en['d0'] > 400:
-            raise AddLivelock('more than 400 draws inside one add')
-        return recording_draw(self)
-    ep.DrawSet.draw = guarded_draw
-    saved_math = sd.math
-    sd.math = kscript.LogShim(rec)
-    exc = None
-    rc = None
-    try:
-        rc = dyn.set(params).run(fatal=True)
-    except Exception as e:
-        exc = type(e).__name__ + ': ' + str(e)
-    finally:
-        sd.math = saved_math
-        kscript.uninstall_draw_recorder()
-    md = (rc or {}).get(epyc.Experiment.METADATA, {}) if rc else {}
-    res = (rc or {}).get(epyc.Experiment.RESULTS, {}) if rc else {}
-    inside = set()
-    for en in entries:
-        if en['fn'] == 'add':
-            inside.update(range(en['d0'], en.get('d1', en['d0'])))
-    obs = {'exception': exc, 'entries': entries, 'snaps': snaps, 'layout': layout, 'started': started, 'final': final,
-           'via_disease': via_disease, 'classes': cls['source'],
-           'results': {k: v for k, v in res.items() if isinstance(v, (int, float))} if isinstance(res, dict) else {},
-           'time': md.get(Dynamics.TIME), 'events': md.get(Dynamics.EVENTS), 'steps': md.get(SynchronousDynamics.TIMESTEPS_WITH_EVENTS, 0),
-           'rands': [e[1] for e in orc.values('random')], 'lns': list(rec.logs),
-           'draws': [d[1] for i, d in enumerate(rec.draws) if i not in inside],
-           'adraws': [d[1] for i, d in enumerate(rec.draws) if i in inside],
-           'codes': {SIR.SUSCEPTIBLE: 1, SIR.INFECTED: 2, SIR.REMOVED: 3}}
-    if exc and (exc.startswith('Budget') or exc.startswith('OutOfScope')):
-        obs['skipped'] = exc.split(':')[0]
-    obs['stats'] = {'additions': sum(1 for en in entries if en['fn'] == 'add'), 'deletions': sum(1 for en in entries if en['fn'] == 'delete'),
-                    'disease_events': sum(1 for en in entries if en['fn'] not in ('add', 'delete')),
-                    'draws_inside_add': len(obs['adraws']), 'redraws_inside_add': max(0, len(obs['adraws']) - case['c'] * sum(1 for en in entries if en['fn'] == 'add')),
-                    'runs_down_to_empty_network': int(bool(final) and not final.get('nodes') and bool(case['graph']['nodes'])),
-                    'dropped_out_of_scope': int(obs.get('skipped') == 'OutOfScope'), 'dropped_budget': int(obs.get('skipped') == 'Budget')}
-    return obs
+    runs = []
+    for rp in [case] + list(case.get('more', [])):
+        o = one_run(rp)
+        if o.get('skipped') and runs:
+            break                                  # keep the completed runs of the history
+        runs.append(o)
+        if o.get('skipped') or o['exception']:
+            break
+    out = {'runs': runs, 'stats': {}}
+    for o in runs:
+        for k, v in o['stats'].items():
+            out['stats'][k] = out['stats'].get(k, 0) + v
+    out['stats']['second_and_later_runs'] = len(runs) - 1
+    if runs[0].get('skipped'):
+        out['skipped'] = runs[0]['skipped']
+    return out
 
 
 # ---------------------------------------------------------------- D
@@ -338,7 +374,7 @@ def und(e):
     return (a, b) if a <= b else (b, a)
 
 
-def direct(case, obs):
+def direct_run(case, obs):
     from epydemic import SIR
     if obs.get('skipped'):
         return []
@@ -350,13 +386,15 @@ def direct(case, obs):
 
     def bad(sig, **detail):
         v.append({'signature': sig + ':' + combo, 'detail': detail})
-    c = case['c']
+    c = obs['c']
     st = obs['started']
     prev_nodes, prev_edges = list(st['nodes']), {und(e) for e in st['edges']}
     if len(obs['snaps']) != len(obs['entries']):
         bad('event-function-entries-and-taps-differ', entries=len(obs['entries']), taps=len(obs['snaps']))
         return v
     # at the start
+    if sorted(st['nodes']) != sorted(obs['proto_nodes']):
+        bad('run-does-not-start-from-the-prototype-network', nodes=st['nodes'], prototype=obs['proto_nodes'])
     if sorted(st['loci'].get('allnodes', [])) != sorted(st['nodes']):
         bad('locus-differs-from-node-set', at='start', locus=st['loci'].get('allnodes'), nodes=st['nodes'])
     adds = dels = 0
@@ -442,6 +480,19 @@ def direct(case, obs):
     return list(seen.values())
 
 
+def direct(case, obs):
+    """D on every run of the history (the same objects run again), first signature of each kind kept"""
+    if obs.get('skipped'):
+        return []
+    seen = {}
+    for ri, o in enumerate(obs['runs']):
+        for x in direct_run(case, o):
+            x = dict(x)
+            x['detail'] = {'run': ri, 'of': len(obs['runs']), 'what': x.get('detail')}
+            seen.setdefault(x['signature'], x)
+    return list(seen.values())
+
+
 # ---------------------------------------------------------------- rendering for Tie/C19.v
 
 BAD = ('{| c_cfg := {| ac_combo := Alone; ac_deg := 0%nat; ac_tbl := []; ac_li := 0%nat; ac_off := 0%nat; ac_S := 1%Z; ac_R := 3%Z |}; '
@@ -450,7 +501,7 @@ BAD = ('{| c_cfg := {| ac_combo := Alone; ac_deg := 0%nat; ac_tbl := []; ac_li :
        'o_events := 0%nat; o_steps := 0%nat; o_ok := false |}')
 
 
-def to_coq(case, obs):
+def to_coq_run(case, obs):
     from epydemic import SIR
     if obs.get('skipped'):
         return None
@@ -471,7 +522,7 @@ def to_coq(case, obs):
         tbl.append('(NodeLocus %s)' % L.z(code[l[2]]) if l[1] == 'node' else '(EdgeLocus %s %s)' % (L.z(code[l[2]]), L.z(code[l[3]])))
     cmb = {'alone': 'Alone', 'inherit': 'Inherit', 'inherit_rev': 'Inherit'}.get(combo) or '(Sequence %s)' % L.b(obs['via_disease'])
     cfg = '{| ac_combo := %s; ac_deg := %s; ac_tbl := %s; ac_li := %s; ac_off := %s; ac_S := %s; ac_R := %s |}' % (
-        cmb, L.nat(max(0, case['c'])), L.lst(tbl), L.nat(li), L.nat(off), L.z(code[SIR.SUSCEPTIBLE]), L.z(code[SIR.REMOVED]))
+        cmb, L.nat(max(0, obs['c'])), L.lst(tbl), L.nat(li), L.nat(off), L.z(code[SIR.SUSCEPTIBLE]), L.z(code[SIR.REMOVED]))
 
     def pk(fn):
         if fn == 'add':
@@ -516,18 +567,26 @@ def to_coq(case, obs):
             'c_rands := %s; c_lns := %s; c_draws := %s; c_adraws := %s; o_snaps := %s; o_handlers := %s; o_taps := %s; o_final_loci := %s; '
             'o_time := %s; o_events := %s; o_steps := %s; o_ok := true |}') % (
         cfg, L.lst(procs), L.nat(len(names)), L.lst(st['nodes'], L.z), L.lst(st['edges'], L.zpair), L.lst(init, L.zpair),
-        L.q(case['maxtime']), L.b(case['dynamics'] == 'synchronous'),
-        L.nat(int(case['maxtime']) + 2 if case['dynamics'] == 'synchronous' else len(obs['rands']) - st['rand'] + 2),
+        L.q(obs['maxtime']), L.b(case['dynamics'] == 'synchronous'),
+        L.nat(int(obs['maxtime']) + 2 if case['dynamics'] == 'synchronous' else len(obs['rands']) - st['rand'] + 2),
         L.lst(obs['rands'][st['rand']:], L.q), L.lst(obs['lns'], L.q), L.lst([max(0, d) for d in obs['draws']], L.nat),
         L.lst([max(0, d) for d in obs['adraws']], L.nat), L.lst(snaps), L.lst(handlers), L.lst(taps),
         L.lst([L.lst(fin['loci'][nm], c_elem) for nm in names]), L.q(obs['time']), L.nat(obs['events']), L.nat(obs.get('steps') or 0))
+
+
+def to_coq(case, obs):
+    """one term per run: the model is restarted from the network each run started with"""
+    if obs.get('skipped'):
+        return None
+    ts = [to_coq_run(case, o) for o in obs['runs'] if not o.get('skipped')]
+    return L.lst([t for t in ts if t is not None])
 
 
 class H(Harness):
     ID = 'C19'
     ANCHOR_FILES = ['epydemic/adddelete.py', 'epydemic/process.py', 'epydemic/compartmentedmodel.py', 'epydemic/stochasticdynamics.py']
     TIE_IMPORT = 'From EpyV Require Import Model.Kernel Model.Loci Model.Compart Model.AddDelete Tie.C19.\nOpen Scope Q_scope.'
-    CHECK_FN = 'EpyV.Tie.C19.check_case'
+    CHECK_FN = 'EpyV.Tie.C19.check_runs'
     QUICK_N = 1000
     THOROUGH_N = 4000
     CASE_TIMEOUT = 20
@@ -573,11 +632,12 @@ class H(Harness):
         return to_coq(case, obs)
 
     def nontrivial(self, case, obs):
-        if obs.get('skipped') or obs.get('exception'):
+        if obs.get('skipped') or any(o.get('exception') for o in obs['runs']):
             return None
-        n = sum(1 for en in obs['entries'] if en['fn'] in ('add', 'delete'))
+        n = sum(1 for o in obs['runs'] for en in o['entries'] if en['fn'] in ('add', 'delete'))
         return str(sorted(case.items(), key=str)) if n >= 1 else None
 
     def sample_view(self, case, obs):
-        return {'case': case, 'events': [(en['fn'], en['e'], en.get('calls')) for en in obs.get('entries', [])][:8],
-                'final_nodes': (obs.get('final') or {}).get('nodes'), 'skipped': obs.get('skipped')}
+        return {'case': case, 'skipped': obs.get('skipped'),
+                'runs': [{'events': [(en['fn'], en['e'], en.get('calls')) for en in o.get('entries', [])][:8],
+                          'final_nodes': (o.get('final') or {}).get('nodes')} for o in obs.get('runs', [])]}
